@@ -203,6 +203,15 @@ Theorem product3_dogmatic : forall eps b0 a0 b1 a1 b2 a2,
 Proof. exact Product.product3_dogmatic. Qed.
 Print Assumptions product3_dogmatic.
 
+(* The uncertainty computed by the four products (validated or labelled, two or three factors) is never negative,
+   whatever the operands: finite or not, well-formed or only accepted up to the constructors' tolerance (for which
+   the smallest quotient (P - b0 b1)/a can be a negative residue).  [nonneg_u o]: the uncertainty of o is NaN or >= 0. *)
+Theorem products_uncertainty_never_negative : forall eps (w0 w1 w2 : @opinion FldR),
+  (forall o, product2 eps w0 w1 = Some o -> nonneg_u o) /\ nonneg_u (product2_lab w0 w1) /\
+  (forall o, product3 eps w0 w1 w2 = Some o -> nonneg_u o) /\ nonneg_u (product3_lab w0 w1 w2).
+Proof. exact Product.products_u_nonneg. Qed.
+Print Assumptions products_uncertainty_never_negative.
+
 (* non-vacuity: the hypotheses are met by concrete, non-trivial operands of different sizes, one of
    them with a zero base-rate entry (so that the 0/0 cells skipped by [vmin] do occur) *)
 Example c06_nonvacuous :
